@@ -327,7 +327,7 @@ func init() {
 		Rule:          "documents whose number leaves are dyadic rationals k/2^m (|k| < 2^11, m <= 4: exact in json.Number, every int/uint width that fits, float32, float64 and decimal128) with 100 expression templates (+ - x / by powers of two, // %, unary signs, comparisons, == != incl. against literals and inside containers, contains, sort, sort_by, min/max(_by), sum, avg, abs/ceil/floor, truthiness, type, to_number, to_string round trip, filters, map, group_by and every integer-argument coercion fed from the document with integral, non-integral and negative values) and seeded random arithmetic expressions; baseline = all leaves as canonical json.Number; 6 random assignments of Go representations per case plus 7 uniform ones (every leaf float64 / float32 / int / int64 / uint / decimal128 / 'n.0') (json.Number spellings 5 / 5.0 / 5e0 / 50e-1, int..int64, uint..uint64, float32, float64, decimal128 in two exponents) must give the same outcome in value and error category (metamorphic, library against itself); boundary stream: 13 large integral values (2^31 .. 2^64, -2^63, 2^100) in every kind that holds them exactly through 24 templates (integer arguments, comparisons, sorting, arithmetic); non-trivial = at least one leaf changed representation and the result is non-null",
 		MinNontrivial: 2000,
 		Streams: []Stream{
-			{Name: "assignments", N: func(c *Ctx) int { return tierN(c, 20000, 300000) }, Run: c14Run},
+			{Name: "assignments", N: func(c *Ctx) int { return tierN(c, 20000, 1000000) }, Run: c14Run},
 			{Name: "boundary", N: func(c *Ctx) int { return len(c14Big) * len(c14BigTemplates) }, Run: c14Boundary, Exhaustive: true},
 		},
 	})
